@@ -3,7 +3,9 @@
    and the history hooks.  TLC explores every interleaving (C18 at design level). *)
 EXTENDS RegisterHarness, FiniteSets, TLC
 
-CONSTANTS S, C, PutCount, NetKind, Lossy, MaxNet
+CONSTANTS S, C, PutCount, NetKind, Lossy, MaxNet,
+          WO      \* TRUE: write-once register harness (the server may also answer a Put with PutFail, which the client
+                  \* treats like PutOk)
 Clients == S..(S + C - 1)
 Servers == 0..(S - 1)
 
@@ -53,26 +55,26 @@ ServerAnswers ==
   \E t \in todo :
     /\ todo' = todo \ {t}
     /\ \/ UNCHANGED <<net, log>>                                                          \* never answers
-       \/ \E v \in (IF t[4] THEN {0} ELSE {0, 65, 66}) :
-             LET m == Msg(t[1], t[2], IF t[4] THEN 3 ELSE 4, t[3], v) IN
+       \/ \E kv \in (IF t[4] THEN {<<3, 0>>} \cup (IF WO THEN {<<5, 0>>} ELSE {}) ELSE {<<4, 0>>, <<4, 65>>, <<4, 66>>}) :
+             LET m == Msg(t[1], t[2], kv[1], t[3], kv[2]) IN
              net' = SendM(net, m) /\ log' = log                                           \* replies are logged at delivery
     /\ UNCHANGED <<cl, seen>>
 (* delivery to a client *)
 ClientGets(m) ==
-  /\ m \in Deliverables /\ m.dst \in Clients /\ m.kind \in {3, 4}
+  /\ m \in Deliverables /\ m.dst \in Clients /\ m.kind \in {3, 4, 5}
   /\ LET c == m.dst  st == cl[c] IN
      IF st.aw # 0 /\ m.req = st.aw
-     THEN /\ net' = IF m.kind = 3
+     THEN /\ net' = IF m.kind \in {3, 5}
                     THEN LET id == (st.n + 1) * c
                              nxt == IF st.n < PutCount THEN Msg(c, (c + st.n) % S, 1, id, ValZ(c, S)) ELSE Msg(c, (c + st.n) % S, 2, id, 0)
                          IN SendM(Consume(m), nxt)
                     ELSE Consume(m)
-          /\ log' = IF m.kind = 3
+          /\ log' = IF m.kind \in {3, 5}
                     THEN LET id == (st.n + 1) * c
                              nxt == IF st.n < PutCount THEN Msg(c, (c + st.n) % S, 1, id, ValZ(c, S)) ELSE Msg(c, (c + st.n) % S, 2, id, 0)
                          IN Append(Append(log, LogIn(m)), LogOut(nxt))
                     ELSE Append(log, LogIn(m))
-          /\ cl' = [cl EXCEPT ![c] = IF m.kind = 3 THEN [aw |-> (st.n + 1) * c, n |-> st.n + 1] ELSE [aw |-> 0, n |-> st.n + 1]]
+          /\ cl' = [cl EXCEPT ![c] = IF m.kind \in {3, 5} THEN [aw |-> (st.n + 1) * c, n |-> st.n + 1] ELSE [aw |-> 0, n |-> st.n + 1]]
           /\ UNCHANGED <<seen, todo>>
      ELSE \* not awaited: ignored (no transition on unordered networks; consumed on an ordered one -- and then the
           \* hook still records the return)
